@@ -27,6 +27,29 @@ def at(x_m: float, y_m: float) -> Tuple[float, float]:
     return (LAT0 + y_m / M_PER_DEG_LAT, LON0 + x_m / M_PER_DEG_LON)
 
 
+def networkx_shim() -> None:
+    """the shipped OSM json files name their edge list "links"; the installed networkx expects "edges" unless told
+    otherwise, so hive's own `OSMRoadNetwork.from_file` cannot read them here.  The shim only adds `edges="links"` to
+    `networkx.node_link_graph` when the data says so - everything else (osm_init_function, from_file, the network
+    constructor) is the real code."""
+    import networkx as nx
+
+    if getattr(nx.node_link_graph, "_hv_shim", False):
+        return
+    orig = nx.node_link_graph
+
+    def node_link_graph(data, *a, **k):
+        if "edges" not in k and isinstance(data, dict) and "links" in data and "edges" not in data:
+            try:
+                return orig(data, *a, edges="links", **k)
+            except TypeError:
+                pass
+        return orig(data, *a, **k)
+
+    node_link_graph._hv_shim = True
+    nx.node_link_graph = node_link_graph
+
+
 def osm_init_fixed(config, simulation_state, environment):
     """the real OSMRoadNetwork on the shipped graph; only the json loading call differs (edges="links")"""
     import networkx as nx
@@ -91,10 +114,8 @@ def load(
         shutil.rmtree(out)
     out.parent.mkdir(parents=True, exist_ok=True)
     config = config._replace(global_config=gc, sim=sim_cfg, dispatcher=disp, scenario_output_directory=out)
-    inits = list(default_init_functions())
-    if config.network.network_type == "osm_network":
-        inits = [osm_init_fixed] + inits
-    rp = load_simulation(config, tuple(igens) if igens is not None else None, inits)
+    networkx_shim()
+    rp = load_simulation(config, tuple(igens) if igens is not None else None, None)
     return rp
 
 
